@@ -1,11 +1,18 @@
 //! C10 — worker hand-over and soft stop lose no listener and cut no request.
 //!
-//! Monitors: (A) fd hand-off codec (`scm::run_scm`, implemented); (B) in-process hand-over under
-//! traffic and (C) system lab are added to this file later and must be called from `run` after
-//! `run_scm` (which must run while no other harness thread opens or closes file descriptors: its
-//! fd census is process wide; the identity-based leak scan it also performs is not affected).
+//! Monitors: (A) fd hand-off codec (`scm::run_scm`); (B) in-process hand-over under traffic
+//! (`inproc::run_inproc`, peers in `traffic`); (C) system lab with the real `sozu` binary
+//! (`system::run_system`, thorough tier only). `run_scm` runs first and alone: its fd census is
+//! process wide (the identity-based leak scan it also performs is not affected).
+//!
+//! Options: `--opt only=A|B|C` runs one monitor; `--opt case=N` runs one case of (B) alone;
+//! `--opt cases=N`, `--opt listeners=N`, `--opt b_threads=N` size (B); `--opt c=1` forces (C) in the
+//! quick tier, `--opt c_runs=N` sizes it.
 
+mod inproc;
 mod scm;
+mod system;
+mod traffic;
 
 use crate::common::{Ctx, Report};
 
@@ -14,8 +21,30 @@ pub use scm::run_scm;
 pub fn run(ctx: &Ctx) -> Report {
     let mut rep = Report::new(
         "fault_enumeration",
-        "(A) fd hand-off codec: every listener count 0..=201 (+253, 254) x address-text class (shortest/longest bindable IPv4, shortest/longest bindable IPv6, mixed) x protocol mix (http, tls, tcp, udp, four-way, tcp+udp) is sent through ScmSocket::send_listeners / receive_listeners over a fresh socketpair with real listening sockets; a case is non-trivial when it carries at least one listener; distinct = distinct (class, mix, count)",
+        "(A) fd hand-off codec: every listener count 0..=201 (+253, 254) x address-text class (shortest/longest bindable IPv4, shortest/longest bindable IPv6, mixed) x protocol mix (http, tls, tcp, udp, four-way, tcp+udp) is sent through ScmSocket::send_listeners / receive_listeners over a fresh socketpair with real listening sockets; a case is non-trivial when it carries at least one listener; distinct = distinct (class, mix, count). (B) hand-overs of an in-thread worker played by the harness as main process (ReturnListenSockets, receive, SoftStop, successor started with the descriptors, ActivateListener), plain soft stops, and the old worker dying before the answer / after the descriptors are out / during its soft stop, each under a connecting client fleet and with requests parked in 7 phases; a case is non-trivial when the scenario ran to its end; distinct = distinct (scenario, listener mix bucket, in-flight phases, step order, release steps). (C, thorough) the same hand-over through the real binary's UpgradeWorker with SIGKILL crash points.",
     );
-    run_scm(ctx, &mut rep);
+    let only = ctx.opt("only").map(|s| s.to_ascii_uppercase());
+    // a replay re-runs the monitors whose witnesses the file holds, nothing else
+    let replayed: Option<Vec<String>> = ctx.replay.as_ref().map(|path| {
+        let v: serde_json::Value = serde_json::from_str(&std::fs::read_to_string(path).unwrap_or_default()).unwrap_or(serde_json::Value::Null);
+        v["witnesses"].as_array().map(|a| a.iter().filter_map(|w| w["monitor"].as_str().and_then(|m| m.split('/').next()).map(|m| m.to_owned())).collect()).unwrap_or_default()
+    });
+    let want = |m: &str| only.as_deref().is_none_or(|o| o == m) && replayed.as_ref().is_none_or(|r| r.iter().any(|x| x == m));
+    let b_case = ctx.opt("case").is_some();
+    if want("A") && !b_case {
+        run_scm(ctx, &mut rep);
+    }
+    if want("B") {
+        inproc::run_inproc(ctx, &mut rep);
+    }
+    let c_wanted = ctx.tier.pick(false, true) || ctx.opt("c") == Some("1") || only.as_deref() == Some("C") || replayed.is_some();
+    if want("C") && c_wanted && !b_case {
+        system::run_system(ctx, &mut rep);
+    }
+    // only (A)'s sub-space is enumerated completely (recorded in `scm_sweep.exhaustive`); (B) and (C)
+    // sample schedules, so the run as a whole claims no exhaustiveness
+    if only.as_deref() != Some("A") || b_case || replayed.is_some() {
+        rep.exhaustive = None;
+    }
     rep
 }
